@@ -150,7 +150,65 @@ func Security(sp *spec.Spec, sv *spec.Service, m *spec.Method, r *vc.Rand, n int
 			out = append(out, c)
 		}
 	}
+	// requirements sharing a scheme but not the required scopes: the script accepts the callbacks of
+	// ONE requirement (scheme + these required scopes) and rejects every other invocation
+	shared := false
+	for i := range reqs {
+		for j := range reqs {
+			if i != j && overlap(reqs[i].Schemes, reqs[j].Schemes) && !sameStrSet(reqs[i].Scopes, reqs[j].Scopes) {
+				shared = true
+			}
+		}
+	}
+	if shared {
+		for j, rq := range reqs {
+			rr := r.Fork(uint64(9000 + j))
+			c := &rt.Case{ID: id, Svc: sv.Name, Method: m.Name, Class: "vector-scoped", Auth: map[string]string{}, Note: map[string]any{"mode": "client", "accepted_requirement": j}}
+			id++
+			for _, s := range schemes {
+				c.Auth[s] = flavours[rr.Intn(len(flavours))]
+			}
+			for _, s := range rq.Schemes {
+				c.Auth[rt.AuthKey(s, rq.Scopes)] = "accept"
+			}
+			c.Sent, c.NoPay = mkPayload(rr, nil)
+			if c.Sent == nil && !c.NoPay {
+				continue
+			}
+			c.Outcome = &rt.Outcome{Kind: "result", Result: Result(sp, m, rr.Fork(5), 1)}
+			if v := viewsOf(sp, m); len(v) > 0 {
+				c.Outcome.View = v[0]
+			}
+			out = append(out, c)
+		}
+	}
 	return out
+}
+
+func overlap(a, b []string) bool {
+	for _, x := range a {
+		for _, y := range b {
+			if x == y {
+				return true
+			}
+		}
+	}
+	return false
+}
+
+func sameStrSet(a, b []string) bool {
+	m := map[string]bool{}
+	for _, x := range a {
+		m[x] = true
+	}
+	n := map[string]bool{}
+	for _, x := range b {
+		n[x] = true
+		if !m[x] {
+			return false
+		}
+	}
+	return len(m) == len(n)
 }
 
 func schemeOfKind(sp *spec.Spec, schemes []string, kind string) string {
